@@ -6,7 +6,7 @@ ACC = ["C01", "C02"]   # acceptance: a broken clause lets a non-solution be deli
 ENUM = ["C02"]         # enumeration only: a lost / repeated solution, every delivered one is still a solution
 EXTRA = {
     # branching contract
-    "C09.height": ACC, "C09.others": ACC, "C09.below": ACC, "C09.flags": ACC, "C09.events": ACC, "C09.alternatives": ACC, "C09.records_below": ACC, "C09.moved": ACC,
+    "C09.height": ACC, "C09.others": ACC, "C09.below": ACC, "C09.flags": ACC + ["C07"], "C09.events": ACC, "C09.alternatives": ACC, "C09.records_below": ACC, "C09.moved": ACC,
     "C09.nonempty": ENUM, "C09.cover": ENUM, "C09.disjoint": ENUM,
     # choice points
     "C09.wake": ACC + ["C08"], "C09.ok": ACC, "C09.fail": ENUM, "C09.copy": ACC, "C09.push": ACC, "C07": ACC, "C08.queue": ACC, "C08.pop": ACC, "C08.popped": ACC, "C08.none": ACC,
@@ -28,3 +28,29 @@ for _k, _c in REG.contracts.items():
             _c.tags[_pref] = sorted(set(_c.tags.get(_pref, [])) | set(_props))
             _hit |= set(_props)
     _c.props = list(_c.props) + [p for p in sorted(_hit) if p not in _c.props]
+
+
+# An index into the engine's state arrays that is no longer provably in range is not only a C16 matter: a negative index wraps (NumPy / Numba semantics), so the
+# write lands on another constraint's flag, another level's box or another queue slot. Found by seeded change C07f (entailment recorded through prop_idx after it
+# may have been reset to -1: the last constraint of the problem is disabled), which only failed `bounds.not_entailed_propagators_stack`.
+STATE_ARRAYS = {"not_entailed_propagators_stack": ["C07", "C01", "C02"], "triggered_propagators": ["C08", "C01", "C02"],
+                "shr_domains_stack": ["C08", "C01", "C02"], "dom_update_stack": ["C09", "C02"], "stacks_top": ["C09", "C02"]}
+ENGINE_FILES = ["solvers/bound_consistency_algorithm.py::", "solvers/shaving_consistency_algorithm.py::", "solvers/backtrack_solver.py::solve_one", "solvers/choice_points.py::",
+                "propagators/propagators.py::add_propagators", "propagators/propagators.py::pop_propagator", "_dom_heuristic.py::"]
+for _k, _c in REG.contracts.items():
+    if not any(e in _k for e in ENGINE_FILES):
+        continue
+    _c.tags = dict(_c.tags)
+    for _arr, _props in STATE_ARRAYS.items():
+        _ps = [p for p in _props if p in _c.props]
+        if _ps:
+            _c.tags[_arr] = sorted(set(_c.tags.get(_arr, [])) | set(_ps))
+# acceptance invariants J / JL are the engine-level meaning of C07 ("disabling the constraint for the rest of the subtree never admits a violating solution")
+for _k, _c in REG.contracts.items():
+    if _k.endswith("#acc") and ("bound_consistency_algorithm" in _k or "solve_one" in _k or "shav" in _k):
+        _c.props = list(_c.props) + (["C07"] if "C07" not in _c.props else [])
+        _c.tags = dict(_c.tags)
+        for _pref in ("C01.J", "C01.JL", "C01.J_others", "C01.J_q0", "C01.restored"):
+            _c.tags[_pref] = sorted(set(_c.tags.get(_pref, [])) | {"C01", "C07"})
+        for _arr in ("not_entailed_propagators_stack",):
+            _c.tags[_arr] = sorted(set(_c.tags.get(_arr, [])) | {"C07", "C01"})
